@@ -65,4 +65,53 @@ mod verif_kani {
         let (ok, _, _, _) = outcome(&bytes[..3]);
         assert!(!ok);
     }
+
+    // ---- C11: hint-free companion for validate_recovery_frame_order (the Verus unit c11_tx_frames proves the same
+    // ---- on the extracted function; this harness needs no annotation and survives refactors of the loop) -------------
+    fn stub_integrity_ok(_f: &WalFrame) -> Result<(), WalValidationError> { Ok(()) }
+    fn frame_at(lsn: u64, seg: u64) -> WalFrame {
+        WalFrame {
+            header: WalFrameHeader {
+                wal_version: 1, writer_epoch: WriterEpochId([1u8; 32]), segment_id: WalSegmentId(seg), lsn: Lsn(lsn),
+                transaction_id: WalTransactionId([2u8; 32]), transaction_local_index: TransactionLocalIndex(0),
+                record_kind: WalRecordKind::ExternalActionRequestRecorded, payload_len: 0, payload_digest: [0u8; 32],
+                payload_codec_id: PayloadCodecId([3u8; 32]), payload_schema_id: PayloadSchemaId([4u8; 32]),
+                payload_schema_version: 1, canonical_encoding_version: 1, digest_domain: [5u8; 32],
+                compression_kind: WalCompressionKind::None, encryption_or_redaction_posture: WalRedactionPosture::Present,
+                previous_frame_digest: [0u8; 32], header_checksum: 0,
+            },
+            payload: WalRecordPayload { kind: WalRecordKind::ExternalActionRequestRecorded, schema_version: 1, canonical_bytes: Vec::new() },
+            trailer: WalFrameTrailer { frame_checksum: 0 },
+        }
+    }
+    /// BOUNDED (two frames; LSNs and segment ids fully symbolic; per-frame integrity stubbed to Ok): the recovery
+    /// frame order is accepted only if the two LSNs are consecutive - whatever segments the frames sit in.
+    #[kani::proof]
+    #[kani::unwind(6)]
+    #[kani::stub(WalFrame::validate_integrity, stub_integrity_ok)]
+    fn c11_bounded2_recovery_frame_order_needs_consecutive_lsns() {
+        let (a, b): (u64, u64) = (kani::any(), kani::any());
+        let (sa, sb): (u64, u64) = (kani::any(), kani::any());
+        let frames = [frame_at(a, sa), frame_at(b, sb)];
+        let r = validate_recovery_frame_order(&frames);
+        let ok = r.is_ok();
+        core::mem::forget(r);
+        let (lo, hi) = if a <= b { (a, b) } else { (b, a) };
+        assert!(!ok || (lo < u64::MAX && hi == lo + 1));
+        core::mem::forget(frames);
+    }
+    /// reachability guard (must FAIL): consecutive LSNs are accepted, so "never Ok" is refuted
+    #[kani::proof]
+    #[kani::unwind(6)]
+    #[kani::stub(WalFrame::validate_integrity, stub_integrity_ok)]
+    fn guard_recovery_frame_order_never_ok() {
+        let a: u64 = kani::any();
+        kani::assume(a < 1000);
+        let frames = [frame_at(a, 1), frame_at(a + 1, 1)];
+        let r = validate_recovery_frame_order(&frames);
+        let ok = r.is_ok();
+        core::mem::forget(r);
+        core::mem::forget(frames);
+        assert!(!ok);
+    }
 }
